@@ -147,8 +147,26 @@ func isFuncDecl(words []aWord) bool {
 		if startWith(words, token.LBRACE) {                      // func (...) {
 			return false
 		}
+		// func (...) result {   is a function literal with a result type;
+		// a method has a name, '.name' or an operator, then its parameters.
+		if w := nonComments(words, 2); len(w) == 2 && w[0].tok != token.PERIOD &&
+			!(w[1].tok == token.LPAREN && w[0].tok != token.LPAREN && w[0].tok != token.LBRACK) {
+			return false
+		}
 	}
 	return true
+}
+
+// nonComments returns the first n words that are not comments.
+func nonComments(words []aWord, n int) (ret []aWord) {
+	for _, w := range words {
+		if w.tok != token.COMMENT {
+			if ret = append(ret, w); len(ret) == n {
+				break
+			}
+		}
+	}
+	return
 }
 
 func seekAfter(words []aWord, tokR, tokL token.Token) []aWord {
